@@ -41,6 +41,8 @@
         let texts = texts();
         let mut reused = StatefulTokenizer::new(&jd, Mode::C);
         let mut reused_list = MorphemeList::empty(&jd);
+        let mut narrow = StatefulTokenizer::new(&jd, Mode::C);
+        narrow.set_subset(InfoSubset::SURFACE);
         for t in texts.iter() {
             let mut per_mode: Vec<Vec<Tok>> = Vec::new();
             for mode in [Mode::C, Mode::B, Mode::A] {
@@ -80,6 +82,23 @@
                     Ok(Err(_)) => {}
                     Err(_) => { if failures.len() < 30 { failures.push(format!("C10: {:?} panics on a reused tokenizer/list", t)); } reused = StatefulTokenizer::new(&jd, Mode::C); reused_list = MorphemeList::empty(&jd); }
                 }
+                // on-demand split of every morpheme into a result list with a history (last filled under a narrower field request)
+                // against the split into a fresh list
+                let r = std::panic::catch_unwind(std::panic::AssertUnwindSafe(|| -> Option<String> {
+                    for i in 0..reused_list.len() { for mode in [Mode::A, Mode::B] {
+                        // (a new list each time: once a list was the target of a split it SHARES the text of the split list, and refilling
+                        // it would replace the text under `reused_list` as well - lists sharing a text are outside what C10 speaks about)
+                        let mut hist_list = MorphemeList::empty(&jd);
+                        narrow.reset().push_str("京都に"); narrow.do_tokenize().ok()?; hist_list.collect_results(&mut narrow).ok()?;
+                        hist_list.clear();
+                        let mut fresh = MorphemeList::empty(&jd);
+                        let m = reused_list.get(i);
+                        let a = m.split_into(mode, &mut hist_list).ok()?; let b = m.split_into(mode, &mut fresh).ok()?;
+                        if a != b || snapshot(&hist_list) != snapshot(&fresh) { return Some(format!("C10: splitting {:?} (morpheme {} of {:?}) in mode {:?} into a reused list gives {:?}, into a fresh list {:?}", &*m.surface(), i, t, mode, snapshot(&hist_list), snapshot(&fresh))); }
+                    }}
+                    None
+                }));
+                match r { Ok(None) => {}, Ok(Some(f)) => if failures.len() < 30 { failures.push(f) }, Err(_) => if failures.len() < 30 { failures.push(format!("C10: splitting the morphemes of {:?} into a reused list panics", t)) } }
             }
             if want("C11") && !t.is_empty() {
                 // C11 promises identical boundaries only for subsets containing what the path-rewrite plugins read
